@@ -110,28 +110,33 @@ def r2_variants(chk):
                       'added to the name; each candidate is paired with every extension (options["exts"] or '
                       'self.exts); setOptions sets every option it is given')
     p = fn.args.args[1].arg
+    lst = [s.targets[0].id for s in fn.body if isinstance(s, ast.Assign) and isinstance(s.targets[0], ast.Name) and
+           isinstance(s.value, ast.List) and not s.value.elts]
+    L = lst[0] if lst else 'filenames'
     want = {'self.originalMatching': p, 'self.uppercaseMatching': '%s.upper()' % p, 'self.lowcaseMatching': '%s.lower()' % p}
     for flag, val in sorted(want.items()):
         ifs = [n for n in fn.body if isinstance(n, ast.If) and norm(n.test) == flag]
-        ok = len(ifs) == 1 and [norm(s) for s in ifs[0].body] == ['filenames.append(%s)' % val] and not ifs[0].orelse
+        ok = len(ifs) == 1 and [norm(s) for s in ifs[0].body] == ['%s.append(%s)' % (L, val)] and not ifs[0].orelse
         chk.ob('C14.R2', 'getMibVariants/%s' % flag.split('.')[1], ok, where(mod, fn), 'under %s: %s' % (
             flag, [norm(s) for i in ifs for s in i.body]))
     fz = [n for n in fn.body if isinstance(n, ast.If) and norm(n.test) == 'self.fuzzyMatching']
     ok = len(fz) == 1
     if ok:
         txt = norm(fz[0])
-        ok = "find('-mib')" in txt and "[x[:part] for x in filenames]" in txt and "%s + '-mib'" % p in txt
+        ok = "find('-mib')" in txt and common.pmatch(txt, "[$x[:$part] for $x in %s]" % L, full=False) is not None \
+            and "%s + '-mib'" % p in txt
+        stores = set(n.id for n in ast.walk(fz[0]) if isinstance(n, ast.Name) and isinstance(n.ctx, ast.Store))
         names = set(n.id for n in ast.walk(fz[0]) if isinstance(n, ast.Name) and isinstance(n.ctx, ast.Load))
-        ok = ok and names <= set(['self', 'filenames', 'part', 'x', 'suffixed', p])
+        ok = ok and names <= (set(['self', L, p]) | stores)
     chk.ob('C14.R2', 'getMibVariants/fuzzy', ok, where(mod, fn), 'fuzzy candidates must only add or strip -mib')
     # any other append / source of names?
     apps = [c for c in walk_no_nested(fn) if isinstance(c, ast.Call) and isinstance(c.func, ast.Attribute) and
-            c.func.attr in ('append', 'extend', 'insert') and _key_is(c.func.value, 'filenames')]
+            c.func.attr in ('append', 'extend', 'insert') and _key_is(c.func.value, L)]
     guarded = all(any(norm(t) in list(want) + ['self.fuzzyMatching'] for t in tests_of(c, fn)) for c in apps)
     chk.ob('C14.R2', 'getMibVariants/all-candidates-under-a-flag', guarded and len(apps) == 6, where(mod, fn),
            '%d candidate insertions' % len(apps))
     rets = [x for x in walk_no_nested(fn) if isinstance(x, ast.Return)]
-    ok = len(rets) == 1 and norm(rets[0].value) == "((x, x + y) for x in filenames for y in options.get('exts', self.exts))"
+    ok = len(rets) == 1 and common.pmatch(rets[0].value, "(($x, $x + $y) for $x in %s for $y in options.get('exts', self.exts))" % L) is not None
     chk.ob('C14.R2', 'getMibVariants/pairs-with-extensions', ok, where(mod, fn), 'returns %s' % [norm(r.value) for r in rets])
     o, so = ci.find_method('setOptions')
     body = [s for s in so.body if not (isinstance(s, ast.Expr) and isinstance(s.value, ast.Constant))]
@@ -181,7 +186,7 @@ def r3_index_first(chk):
              for s in walk_no_nested(fn) if isinstance(s, ast.Assign))
     chk.ob('C14.R3', 'FileReader.getMibVariants/index-from-own-dir', ok, where(mod, fn), '')
     o, li = ci.find_method('loadIndex')
-    ok = 'dict([x.split()[:2] for x in f.readlines()])' in norm(li)
+    ok = common.pmatch(norm(li), 'dict([$x.split()[:2] for $x in $f.readlines()])', full=False) is not None
     chk.ob('C14.R3', 'FileReader.loadIndex/format', ok, where(mod, li), 'index lines are `MIB-NAME file-name`')
 
 
@@ -221,7 +226,7 @@ def r5_recursion(chk):
     ok = len(rec) == 1 and norm(first.test) == 'not %s' % fn.args.args[2].arg and norm(first.body[-1]) == 'return [%s]' % \
         fn.args.args[1].arg and any('os.path.isdir' in norm(t) for t in tests_of(rec[0], fn))
     chk.ob('C14.R5', 'FileReader.getSubdirs/recursion', ok, where(ci.mod, fn), '')
-    ok = 'dirs = [%s]' % fn.args.args[1].arg in [norm(s) for s in fn.body]
+    ok = common.pfind(fn.body, '$d = [%s]' % fn.args.args[1].arg) is not None
     chk.ob('C14.R5', 'FileReader.getSubdirs/own-dir-first', ok, where(ci.mod, fn), '')
     zi = model.cls(ZIP, 'ZipReader')
     o, rz = zi.find_method('_readZipDirectory')
@@ -229,10 +234,12 @@ def r5_recursion(chk):
     ok = len(rec) == 1 and any(".endswith('.zip')" in norm(t) and ".endswith('.ZIP')" in norm(t) for t in tests_of(rec[0], rz))
     chk.ob('C14.R5', 'ZipReader._readZipDirectory/nested-archives', ok, where(zi.mod, rz), '')
     txt = norm(rz)
-    chk.ob('C14.R5', 'ZipReader._readZipDirectory/basename-keys', 'filename = os.path.basename(member.filename)' in txt and
-           'members[filename] = [[fileObj, member.filename, mtime]]' in txt, where(zi.mod, rz), '')
-    chk.ob('C14.R5', 'ZipReader._readZipDirectory/reference-chain', 'members[innerFilename] = [[fileObj, '
-           'member.filename, None]]' in txt and 'members[innerFilename].extend(ref)' in txt, where(zi.mod, rz), '')
+    b = common.pmatch(txt, '$f = os.path.basename($m.filename)', full=False)
+    ok = b is not None and common.pmatch(txt, '$ms[%s] = [[$fo, %s.filename, $mt]]' % (b['f'], b['m']), full=False) is not None
+    chk.ob('C14.R5', 'ZipReader._readZipDirectory/basename-keys', ok, where(zi.mod, rz), '')
+    b2 = common.pmatch(txt, '$ms[$inner] = [[$fo, $m.filename, None]]', full=False)
+    ok = b2 is not None and common.pmatch(txt, '%s[%s].extend($ref)' % (b2['ms'], b2['inner']), full=False) is not None
+    chk.ob('C14.R5', 'ZipReader._readZipDirectory/reference-chain', ok, where(zi.mod, rz), '')
     fl = model.cls(ZIP, 'FileLike')
     need = ['read', 'seek', 'tell', 'seekable', 'close']
     missing = [m for m in need if m not in fl.methods]
@@ -242,8 +249,10 @@ def r5_recursion(chk):
         rets = [x for x in walk_no_nested(fl.methods['seekable']) if isinstance(x, ast.Return)]
         chk.ob('C14.R5', 'FileLike.seekable', len(rets) == 1 and norm(rets[0].value) == 'True', where(fl.mod, fl.node), '')
     o, rf = zi.find_method('_readZipFile')
-    ok = 'for fileObj, filename, mtime in refs' in norm(rf) and 'fileObj = FileLike(dataObj, name=self._name)' in norm(rf) \
-        and 'return (dataObj, mtime)' in norm(rf)
+    t2 = norm(rf)
+    b3 = common.pmatch(t2, 'for $fo, $fn, $mt in refs', full=False)
+    ok = b3 is not None and common.pmatch(t2, '%s = FileLike($d, name=self._name)' % b3['fo'], full=False) is not None \
+        and common.pmatch(t2, 'return ($d, %s)' % b3['mt'], full=False) is not None
     chk.ob('C14.R5', 'ZipReader._readZipFile/follows-chain', ok, where(zi.mod, rf), '')
 
 
@@ -255,6 +264,33 @@ def r6_url_dispatch(chk):
                       'file and the path ends in .zip/.ZIP; http/https -> HttpReader(port or 80/443, ssl iff https); '
                       'ftp/sftp -> FtpReader(port or 21, ssl iff sftp); anything else raises PySmiError')
     loops = [n for n in fn.body if isinstance(n, ast.For)]
+    mapping = {}
+    for pat, canon in (('$v = urlparse.urlparse($u)', 'mibSource'), ('$v = []', 'readers')):
+        b = common.pfind([s for s in ast.walk(fn) if isinstance(s, ast.Assign)], pat)
+        if b:
+            mapping[b['v']] = canon
+    ms = [k for k, v in mapping.items() if v == 'mibSource']
+    if ms:
+        for pat, canon in (('$v = url2pathname(%s.path)' % ms[0], 'filePath'), ('$v = %s.scheme' % ms[0], 'scheme')):
+            b = common.pfind([s for s in ast.walk(fn) if isinstance(s, ast.Assign)], pat)
+            if b:
+                mapping[b['v']] = canon
+    global norm
+    _norm = norm
+
+    def norm(n, _m=mapping, _n=_norm):
+        import re as _re
+        t = _n(n)
+        for k, v in _m.items():
+            t = _re.sub(r'\b%s\b' % _re.escape(k), v, t)
+        return t
+    try:
+        return _r6_body(chk, model, fn, mod, loops, norm)
+    finally:
+        norm = _norm
+
+
+def _r6_body(chk, model, fn, mod, loops, norm):
     chain = [n for n in loops[0].body if isinstance(n, ast.If) and 'mibSource.scheme in' in norm(n.test)] if loops else []
     ok = len(chain) == 1
     chk.ob('C14.R6', 'dispatch-chain', ok, where(mod, fn), '')
